@@ -177,61 +177,80 @@ def run_shard(args):
     # cumulatively on virtual copies: a path the in-process driver does not have)
     from .. import session
 
-    nreal = {"quick": 1 if args.shard < 3 else 0, "thorough": 3}[tier]
+    nreal = {"quick": 1 if args.shard < 5 else 0, "thorough": 4}[tier]
+    HDR = "from inline_snapshot import snapshot, Is, HasRepr, external, outsource\nfrom vp import *\n"
     for c in range(nreal):
         rng = random.Random(f"{args.seed}/{PROP}/review/{args.shard}/{c}")
-        sites = [c05.make_site(rng, i, 2) for i in range(rng.randint(3, 5))]
-        if rng.random() < 0.5:
-            sites[0] = kw_site(rng, 0)
-        for s in sites:
-            if s["place"] == "module":
-                s["place"] = "loop"
-        src, order = program.build(sites, style="rec", tests=1, header="from inline_snapshot import snapshot, Is, HasRepr, external, outsource\nfrom vp import *\n")
-        res0 = inproc.run({"test_a.py": src}, ())
+        layout = (args.shard + c) % 5
+        if layout in (3, 4):
+            # fixed multi-file layouts: a later category touches only files an earlier one already changed
+            x, y, z = rng.sample(range(10, 99), 3)
+            if layout == 3:
+                files0 = {"test_a.py": HDR + f"\n\ndef test_a():\n    rec(0, lambda: {x} == snapshot())\n    rec(1, lambda: {y} == snapshot({y + 1}))\n", "test_b.py": HDR + f"\n\ndef test_b():\n    rec(0, lambda: {z} == snapshot())\n"}
+            else:
+                files0 = {"test_a.py": HDR + f"\n\ndef test_a():\n    rec(0, lambda: {x} == snapshot({x + 1}))\n    rec(1, lambda: {y} in snapshot([{y}, {z}]))\n", "test_b.py": HDR + f"\n\ndef test_b():\n    rec(0, lambda: {z} == snapshot({z + 1}))\n", "test_c.py": HDR + f"\n\ndef test_c():\n    rec(0, lambda: {x} <= snapshot({x}))\n"}
+        else:
+            files0 = {}
+            for fname in ["test_a.py", "test_b.py", "test_c.py"][: 1 + layout]:
+                sites = [c05.make_site(rng, i, 2) for i in range(rng.randint(2, 5))]
+                if rng.random() < 0.5:
+                    sites[0] = kw_site(rng, 0)
+                for s in sites:
+                    if s["place"] == "module":
+                        s["place"] = "loop"
+                files0[fname], _ = program.build(sites, style="rec", tests=1, header=HDR)
+        res0 = inproc.run(files0, ())
         if res0.exec_exc or res0.crashed():
             continue
         P = [x for x in ("create", "fix", "trim", "update") if x in res0.flags_reported]
         if len(P) < 2:
             continue
 
-        def review_chain(order_of_cats):
-            proj = session.Project({"test_a.py": src})
+        def chain(order_of_cats, mode):
+            proj = session.Project(files0)
             try:
                 for cat in order_of_cats:
-                    # prompts appear only for categories that are pending *now*, in the order create, fix, trim, update
-                    cur = inproc.run({"test_a.py": (proj.dir / "test_a.py").read_text()}, ())
-                    pend = [x for x in ("create", "fix", "trim", "update") if x in cur.flags_reported]
-                    answers = "".join("y\n" if x in (cat if isinstance(cat, (list, tuple)) else [cat]) else "n\n" for x in pend) + "n\nn\nn\nn\n"
-                    r = session.run_session(proj, ["--inline-snapshot=review"], env={"FORCE_COLOR": "true"}, stdin=answers.encode())
+                    cats = list(cat) if isinstance(cat, (list, tuple)) else [cat]
+                    if mode == "flags":
+                        r = session.run_session(proj, ["--inline-snapshot=" + ",".join(cats)])
+                    else:
+                        # prompts appear only for categories that are pending *now*, in the order create, fix, trim, update
+                        cur = inproc.run({k: (proj.dir / k).read_text() for k in files0}, ())
+                        pend = [x for x in ("create", "fix", "trim", "update") if x in cur.flags_reported]
+                        answers = "".join("y\n" if x in cats else "n\n" for x in pend) + "n\nn\nn\nn\n"
+                        r = session.run_session(proj, ["--inline-snapshot=review"], env={"FORCE_COLOR": "true"}, stdin=answers.encode())
                     if any(a["kind"] == "sessionfinish_exception" for a in r.audit):
                         return ("exc", [a for a in r.audit if a["kind"] == "sessionfinish_exception"])
-                return (proj.dir / "test_a.py").read_text()
+                return {k: (proj.dir / k).read_text() for k in files0}
             finally:
                 proj.close()
 
-        combined = review_chain([P])
         C["review_programs"] = C.get("review_programs", 0) + 1
+        C["real_files_per_program_%d" % len(files0)] = C.get("real_files_per_program_%d" % len(files0), 0) + 1
         perms = list(itertools.permutations(P))
         rng.shuffle(perms)
-        for perm in perms[: (2 if tier == "quick" else 6)]:
-            final = review_chain(list(perm))
-            C["review_chains"] = C.get("review_chains", 0) + 1
-            out["evaluations"] += 1
-            out["signatures"].add(f"review/{'+'.join(P)}/{'>'.join(perm)}")
-            wit = {"files": {"test_a.py": src}, "flags": P, "order": list(perm), "mode": "review sessions"}
-            if isinstance(final, tuple) or isinstance(combined, tuple):
-                out["violations"].append({"kind": "review-session-raised", "detail": {"P": P, "order": perm, "events": final if isinstance(final, tuple) else combined}, "witness": wit, "finding": None})
-                continue
-            try:
-                same = ast.dump(ast.parse(final)) == ast.dump(ast.parse(combined))
-            except SyntaxError as e:
-                out["violations"].append({"kind": "final-program-unparsable", "detail": {"P": P, "order": perm, "error": str(e)}, "witness": wit, "finding": None})
-                continue
-            if not same:
-                import difflib
+        for mode in ("review", "flags"):
+            combined = chain([P], mode)
+            for perm in perms[: (1 if tier == "quick" else 4)]:
+                final = chain(list(perm), mode)
+                C["review_chains"] = C.get("review_chains", 0) + 1
+                out["evaluations"] += 1
+                out["signatures"].add(f"{mode}/{len(files0)}files/{'+'.join(P)}/{'>'.join(perm)}")
+                wit = {"files": files0, "flags": P, "order": list(perm), "mode": mode + " sessions"}
+                if isinstance(final, tuple) or isinstance(combined, tuple):
+                    out["violations"].append({"kind": "real-session-raised", "detail": {"P": P, "order": perm, "mode": mode, "events": final if isinstance(final, tuple) else combined}, "witness": wit, "finding": None})
+                    continue
+                for k in files0:
+                    try:
+                        same = ast.dump(ast.parse(final[k])) == ast.dump(ast.parse(combined[k]))
+                    except SyntaxError as e:
+                        out["violations"].append({"kind": "final-program-unparsable", "detail": {"P": P, "order": perm, "file": k, "error": str(e)}, "witness": wit, "finding": None})
+                        continue
+                    if not same:
+                        import difflib
 
-                diff = "\n".join(difflib.unified_diff(combined.splitlines(), final.splitlines(), "all-at-once", ">".join(perm), lineterm="", n=0))
-                out["violations"].append({"kind": "order-dependent-result(review sessions)", "detail": {"P": P, "order": perm, "diff": diff[:2000]}, "witness": wit, "finding": None})
+                        diff = "\n".join(difflib.unified_diff(combined[k].splitlines(), final[k].splitlines(), "all-at-once", ">".join(perm), lineterm="", n=0))
+                        out["violations"].append({"kind": f"order-dependent-result({mode} sessions)", "detail": {"P": P, "order": perm, "file": k, "diff": diff[:2000]}, "witness": wit, "finding": None})
     out["signatures"] = sorted(out["signatures"])
     return out
 
